@@ -1,6 +1,36 @@
 //@ unit printer_indent
 //@ serves C04 C05
 //@ must_verify AstPrinter::new AstPrinter::with_comment_map AstPrinter::has_comment AstPrinter::print_comment_group AstPrinter::render_missed_comments AstPrinter::render_comment_if_needed AstPrinter::is_bareword AstPrinter::escape_quotes AstPrinter::render_list_def AstPrinter::render_tuple_def AstPrinter::render_value AstPrinter::render_expr AstPrinter::render_expr__g0 AstPrinter::render_expr__g1 AstPrinter::render_expr__g2 AstPrinter::render_expr__g3 AstPrinter::render_stmt AstPrinter::render lemma_consumed_in_line_order lemma_kd Value::pos FuncOpDef::pos Expression::pos Statement::pos lemma_groups_inhabited lemma_e_parts lemma_fl_parts lemma_st_parts lemma_es_w lemma_fs_w lemma_ads_w lemma_arms_w lemma_sts_w
+// C04 / C05 - the AST printer behind `ucg fmt`: `AstPrinter` (src/ast/printer/mod.rs), every method, over the real AST
+// types of src/ast/mod.rs and the real std BTreeMap comment map - all extracted verbatim.
+//
+// Contract (C04: "formatting ... finishes with either a result or a diagnostic. None panics ... or fails to terminate"):
+// for ALL statement lists, ALL comment maps, ALL line numbers in the tree and ANY writer (every write may fail)
+//   * no arithmetic on `curr_indent` or on line numbers (`+= indent_size`, `-= indent_size`, `line - 1`,
+//     `last_comment_line + 1`) leaves usize, no `unwrap` meets a None, no index leaves its list, make_indent is never
+//     asked for more than isize::MAX bytes, every loop and every recursion terminates (`decreases` on the tree);
+//   * `rpost`: the printer's invariant `pinv` holds again afterwards (also when a write failed), indent_size and the
+//     comment map are untouched, and when the function succeeds `curr_indent` is back where it was - every
+//     `+= indent_size` has met its `-= indent_size` on every path. (After a failed write the function returns early
+//     with the indentation possibly still raised; nothing is rendered after that.)
+// Caller obligations (`rpre`, with_comment_map's `requires`):
+//   * room: curr_indent + e_w(tree, indent_size) <= isize::MAX, e_w = the deepest indentation the tree can reach: one
+//     indent_size per nested list / tuple / argument list / module body / commented map-filter-reduce / parenthesis.
+//     (`ucg fmt` always passes indent_size 4 - its `--indent` flag takes no value - and starts at 0.)
+//   * the keys of the comment map are line numbers: 1 <= key < usize::MAX (the tokenizer counts lines from 1). A group
+//     at line 0 would make `line - 1` in render_missed_comments underflow for a node at line 0.
+//   * `pinv`, which `new` and `with_comment_map` establish: comment groups are pending only while a map is installed
+//     (else render_missed_comments would never terminate), and they are the n largest keys of the map, descending.
+// C05 frame ("contains every comment of the original ... in the same order"), as far as the printer's own state
+// tells: with_comment_map makes EVERY key of the map pending; no render function ever adds a pending group; groups are
+// consumed only by print_comment_group (one per call, after writing it), from the smallest line up, none skipped
+// (lemma_consumed_in_line_order); render_missed_comments(line) consumes exactly the groups up to `line`; when `render`
+// succeeds NO group is left pending. The written text itself is not modelled here.
+//
+// Model: `W: Write` stays generic over a local trait `Write` (any writer: every call may fail, the writer changes
+// arbitrarily); `write!` / `writeln!` are the macros of prelude/printer_indent_macros.rs: arguments are evaluated, the
+// text is dropped. make_indent's body (repeat_n + collect + from_utf8_lossy) is assumed: it needs curr_indent <=
+// isize::MAX (Vec's capacity limit) and yields that many chars.
 //@ include prelude/head.rs
 use std::rc::Rc;
 //@ include prelude/printer_indent_macros.rs
@@ -413,6 +443,7 @@ pub open spec fn rpre<'a, W: Write>(p: AstPrinter<'a, W>, w: nat) -> bool {
                 self.last_line == old(self).last_line,
                 self.comment_group_lines@ == old(self).comment_group_lines@,
 //@   >>>
+//@   mutant comment_group_dropped_unprinted "self.comment_group_lines.pop();" => "self.comment_group_lines.pop(); self.comment_group_lines.pop();" expect print_comment_group
 //@   mutant missing_comment_group_unwrapped "map.get(&line).unwrap_or(&empty)" => "map.get(&line).unwrap()" expect print_comment_group
 //@ end
 
@@ -449,6 +480,7 @@ pub open spec fn rpre<'a, W: Write>(p: AstPrinter<'a, W>, w: nat) -> bool {
                 forall|i: int| 0 <= i < self.comment_group_lines@.len() ==> self.comment_group_lines@[i] > line,
             decreases self.comment_group_lines@.len()
 //@   >>>
+//@   mutant group_on_the_line_itself_left_pending "if next_comment_line <= line {" => "if next_comment_line < line {" expect render_missed_comments
 //@   mutant blank_line_test_two_lines_back "if next_comment_line < line - 1 {" => "if next_comment_line < line - 2 {" expect render_missed_comments
 //@   mutant later_group_spins_instead_of_stopping "} else { break; }" => "} else { continue; }" expect render_missed_comments
 //@ end
@@ -750,6 +782,7 @@ pub proof fn lemma_groups_inhabited(d: ImportDef, pos: Position, s: nat)
                 frame(*old(self), *self),
                 self.curr_indent == old(self).curr_indent,
 //@   >>>
+//@   mutant trailing_comments_never_rendered "if let Some(last_comment_line) = comment_line { self.render_missed_comments(last_comment_line + 1)?; }" => "" expect render
 //@   mutant trailing_comments_line_overflows "self.render_missed_comments(last_comment_line + 1)?;" => "self.render_missed_comments(last_comment_line + 2)?;" expect render
 //@ end
 
